@@ -12,7 +12,11 @@ PROP = {'rule': 'rapid-generated cases. cacheHistory: state machine (~40 steps) 
          'dimension requested within 1 unit of the remaining room. nominate: 1-3 reservations on 2 nodes, 2-5 scheduling cycles '
          '(BeforePreFilter, PreFilter, Filter, optional PreScore, Reserve) with reservation-update / bind / Unreserve / pod-delete / '
          'reservation-succeeded events in between; non-trivial = a cycle whose pod has reservation affinity and exactly one matched '
-         'reservation on the chosen node. ownerMatch: 0-3 owners (object ref / controller ref / label selector, any combination incl. '
+         'reservation on the chosen node. multiProfile: 1-3 scheduler profiles, each with its own real Reservation plugin and cache, '
+         'all fed the same generated reservation add / bind / update / terminate / rollback / delete events (and a few assigned pods) through '
+         'each plugin\'s own handler and through the real global handler captured from eventhandlers.AddScheduleEventHandler, the global '
+         'handler at a drawn position among them; non-trivial = >=2 profiles and an API delete of a reservation that is Available (held by '
+         'every profile) at that moment. ownerMatch: 0-3 owners (object ref / controller ref / label selector, any combination incl. '
          'the empty owner) x pod (name, namespace, uid, labels, 0-2 owner references) over small value pools; non-trivial = an owner with '
          '>=2 selectors ANDed or >=2 owners ORed. distinct = FNV-64 fingerprint of the full case (history).',
  'assumptions': ['a reservation never changes node once Available; amounts, reserved dimension set, restricted-resources option, labels, '
@@ -24,6 +28,8 @@ PROP = {'rule': 'rapid-generated cases. cacheHistory: state machine (~40 steps) 
                  'per reservation event the plugin handler and the global frameworkext handler both run, in either order; the global '
                  'DeleteReservation may additionally be delayed behind later pod events, but the plugin handler never lags the global '
                  'handler by more than the current event',
+                 'multiProfile: "no longer exists" is asserted for reservations deleted from the API; a reservation that still exists but is no '
+                 'longer Available on a node (terminated, rolled back) and is still known to some profile is only counted',
                  'requests are whole milli-cores / bytes / pieces (what the API server admits), so milli-unit integer arithmetic is exact',
                  'owner specifications are syntactically valid label selectors; reservation-operating-mode pods and pre-allocation are '
                  'not generated',
@@ -31,10 +37,11 @@ PROP = {'rule': 'rapid-generated cases. cacheHistory: state machine (~40 steps) 
                  'statement itself only requires the "accepted only if" direction (signatures fit:accepted-* / fit:restricted-admitted-*)'],
  'units': [{'name': 'plugin',
             'pkg': 'pkg/scheduler/plugins/reservation',
-            'files': ['C05/c05_cache_test.go', 'C05/c05_nominate_test.go'],
+            'files': ['C05/c05_cache_test.go', 'C05/c05_nominate_test.go', 'C05/c05_multiprofile_test.go'],
             'tests': [{'run': 'TestVerifC05CacheHistory', 'quick': 4000, 'thorough': 20000, 'steps': 40},
                       {'run': 'TestVerifC05Fit', 'quick': 10000, 'thorough': 80000},
-                      {'run': 'TestVerifC05Nominate', 'quick': 2000, 'thorough': 8000}]},
+                      {'run': 'TestVerifC05Nominate', 'quick': 2000, 'thorough': 8000},
+                      {'run': 'TestVerifC05MultiProfile', 'quick': 2000, 'thorough': 8000, 'steps': 25}]},
            {'name': 'owners',
             'pkg': 'pkg/util/reservation',
             'files': ['C05/c05_owner_test.go'],
